@@ -384,6 +384,14 @@ def lookup_by_name(rep: Report, prog: Program) -> None:
         bad = ""
         for r in rets:
             v = defs.get(r.value.id, r.value) if isinstance(r.value, ast.Name) else r.value
+            # a local that only names the registry (`table = cls._by_name`) is the registry
+            import copy as _copy
+
+            class _Al(ast.NodeTransformer):
+                def visit_Name(self, n_: ast.Name) -> ast.AST:
+                    d_ = defs.get(n_.id)
+                    return _copy.deepcopy(d_) if isinstance(d_, ast.Attribute) and d_.attr == "_by_name" else n_
+            v = _Al().visit(_copy.deepcopy(v))
             t = ast.unparse(v).replace(" ", "")
             good = (t.endswith(f"._by_name[{nm}]") or t.endswith(f"._by_name.get({nm})") or f"._by_name.get({nm}," in t) and nm not in defs
             if not good and not (isinstance(v, ast.Constant) and v.value is None):
